@@ -25,7 +25,7 @@ SLUGS = ['no-close-callback-when-busy', 'open-nil-nil', 'flush-nil-after-close',
          'stream-op-races-unmap', 'accept-after-close']
 
 INTERNAL = {'ExitSetErr', 'CloseCAS', 'CloseErr', 'CloseNotify', 'CloseChan', 'ClosePost', 'DeferredClose', 'LNext', 'TdConn',
-            'TdTable', 'TdStream', 'TdWait', 'TdBm', 'TdQueue', 'SendPut'}
+            'TdTable', 'TdStream', 'TdWait', 'TdBm', 'TdQueue', 'SendPut', 'DrainEnd'}
 USER_LEVEL = {'PeerSend', 'PeerCloseStream', 'PeerDies', 'CloseCall', 'SendCheck', 'StreamClose', 'ParkRead', 'ParkAccept',
               'ParkFlush', 'CbRelease', 'TryOpen'}
 INVS = 'TypeOK SurvivorClosed G_ErrorKnown PendingReleased G_LaterFail CallbackAtMostOnce G_CallbackExactlyOnce ' \
@@ -37,16 +37,16 @@ def cfg_text(c, prune=True, invs=INVS, props=''):
     def sset(xs, q=False):
         return '{' + ', '.join(('"%s"' % x) if q else str(x) for x in xs) + '}'
     return ('SPECIFICATION Spec\nCONSTANTS\n  Streams = %s\n  CbStreams = %s\n  Closers = %s\n  Atomic = %s\n  MaxSend = %d\n'
-            '  MaxPeerClose = %d\n  WithAccept = %s\n  WithFlush = %s\n  MaxOps = %d\n  FixedOpen = %s\n  FixedFlush = %s\n%sINVARIANTS %s\n%sCHECK_DEADLOCK FALSE\n') % (
+            '  MaxPeerClose = %d\n  WithAccept = %s\n  WithFlush = %s\n  MaxOps = %d\n  LateStreams = %s\n  FixedOpen = %s\n  FixedFlush = %s\n%sINVARIANTS %s\n%sCHECK_DEADLOCK FALSE\n') % (
         sset(c['streams']), sset(c['cb']), sset(c['closers'], True), 'TRUE' if c['atomic'] else 'FALSE', c['maxsend'],
-        c['maxpc'], 'TRUE' if c['accept'] else 'FALSE', 'TRUE' if c['flush'] else 'FALSE', c['maxops'],
+        c['maxpc'], 'TRUE' if c['accept'] else 'FALSE', 'TRUE' if c['flush'] else 'FALSE', c['maxops'], sset(c.get('late', [])),
         'FALSE' if c.get('prefix') else 'TRUE', 'FALSE' if c.get('prefix') else 'TRUE',
         'CONSTRAINT NoKnownFinding\n' if prune else '', invs, ('PROPERTIES %s\n' % props) if props else '')
 
 
 def describe(c):
-    return 'streams=%s cb=%s closers=%d %s send<=%d peerclose<=%d accept=%s flush=%s ops<=%d' % (
-        c['streams'], c['cb'], len(c['closers']), 'run-to-completion' if c['atomic'] else 'all interleavings', c['maxsend'],
+    return 'streams=%s%s cb=%s closers=%d %s send<=%d peerclose<=%d accept=%s flush=%s ops<=%d' % (
+        c['streams'], (' late=%s' % c['late']) if c.get('late') else '', c['cb'], len(c['closers']), 'run-to-completion' if c['atomic'] else 'all interleavings', c['maxsend'],
         c['maxpc'], c['accept'], c['flush'], c['maxops'])
 
 
@@ -54,6 +54,8 @@ def quiet(st):
     pc = st['pc']
     for t, p in pc.items():
         if p in ('idle', 'done'):
+            continue
+        if t == 'loop' and p == 'e_wait' and st.get('nsBusy'):
             continue
         if t == 'loop' and p == 't_wait':
             busy = st['cbBusy']
@@ -80,7 +82,7 @@ def expect(st, streams):
         'tablenil': table_nil, 'notified': per(st['notified'], streams), 'cbbusy': per(st['cbBusy'], streams),
         'cbl': per(st['cbL'], streams), 'cbr': per(st['cbR'], streams), 'unread': per(st['unread'], streams),
         'rd': per(st['rd'], streams), 'fl': st['fl'], 'acc': st['acc'], 'bm': st['bm'], 'qm': st['qm'],
-        'flag': st['flag'] if st['qm'] == 'mapped' else -1, 'lastopen': st['lastOpen'], 'lastsend': st['lastSend'], 'out': out,
+        'flag': st['flag'] if st['qm'] == 'mapped' else -1, 'lastopen': st['lastOpen'], 'lastsend': st['lastSend'], 'out': out, 'nsbusy': st['nsBusy'],
     }
 
 
@@ -341,18 +343,23 @@ def run(prop, tier, seed, replay=None):
 
     ck.cov['tlc_configs'] = []
     F, T = False, True
-    def C(streams, cb, closers, atomic, maxsend, maxpc, accept, flush, maxops):
+    def C(streams, cb, closers, atomic, maxsend, maxpc, accept, flush, maxops, late=()):
         return dict(streams=streams, cb=cb, closers=closers, atomic=atomic, maxsend=maxsend, maxpc=maxpc, accept=accept,
-                    flush=flush, maxops=maxops)
+                    flush=flush, maxops=maxops, late=list(late))
     if quick:
         fine_cfgs = [C([1], [], ['c1', 'c2'], F, 0, 0, F, F, 0), C([1], [1], ['c1'], F, 1, 0, F, F, 2)]
-        coarse = [C([1, 2], [2], ['c1'], T, 1, 1, T, F, 1), C([1], [], ['c1', 'c2'], T, 1, 0, F, T, 1)]
+        fine_cfgs.append(C([1, 2], [], ['c1'], F, 0, 0, F, F, 1, late=[1, 2]))
+        coarse = [C([1, 2], [2], ['c1'], T, 1, 1, T, F, 1), C([1], [], ['c1', 'c2'], T, 1, 0, F, T, 1),
+                  # two streams that appear late: the second one is registered between Close() and the teardown lambda
+                  C([1, 2], [], ['c1'], T, 0, 0, F, F, 2, late=[1, 2])]
         limit = 110
     else:
         fine_cfgs = [C([1], [], ['c1', 'c2'], F, 0, 0, F, F, 0), C([1], [1], ['c1'], F, 1, 0, F, F, 2),
                      C([1], [], ['c1', 'c2'], F, 1, 0, F, F, 1), C([1, 2], [2], ['c1'], F, 1, 1, T, F, 1)]
         coarse = [C([1, 2], [2], ['c1'], T, 1, 1, T, F, 2), C([1], [], ['c1', 'c2'], T, 1, 0, T, T, 2),
-                  C([1, 2], [1, 2], ['c1'], T, 2, 1, F, F, 2)]
+                  C([1, 2], [1, 2], ['c1'], T, 2, 1, F, F, 2),
+                  C([1, 2, 3], [], ['c1', 'c2'], T, 1, 0, F, F, 2, late=[2, 3])]
+        fine_cfgs.append(C([1, 2], [], ['c1', 'c2'], F, 0, 0, F, F, 1, late=[1, 2]))
         limit = 1500
 
     # ---- design check of every interleaving (fine grained) and the gate witness run beside the replay
@@ -433,7 +440,9 @@ def run(prop, tier, seed, replay=None):
             role, mem = combos[(pi + ck.seed) % 4]
             if any(st['a'] == 'ParkAccept' for st in s['steps']):
                 role = 'server'      # AcceptStream exists on the server end only
-            s.update(role=role, mem=mem, streams=len(c['streams']), cb=c['cb'])
+            if c.get('late'):
+                role = 'server'      # late streams come through the ListenCallback of a server end
+            s.update(role=role, mem=mem, streams=len(c['streams']), cb=c['cb'], late=c.get('late', []))
             scheds.append(s)
         per_cfg.append((c, res, len(edges), total_paths, scheds))
         all_scheds += scheds
@@ -443,7 +452,7 @@ def run(prop, tier, seed, replay=None):
 
     # the same behaviours at user level against the real epoll loop; peer severed in-process or SIGKILLed child process
     real_scheds, seen = [], set()
-    cands = [s for s in all_scheds if any(st['a'] == 'PeerDies' for st in s['steps'])]
+    cands = [s for s in all_scheds if any(st['a'] == 'PeerDies' for st in s['steps']) and not s.get('late')]
     rng.shuffle(cands)
     n_in, n_child = (24, 6) if quick else (300, 40)
     for s in cands:
